@@ -175,7 +175,8 @@ def run(wd, mc_name, workers=16, timeout=600, dump=False, cont=False, coverage=F
         res.timed_out = True
         res.rc = -1
         res.out = (e.stdout or b"").decode(errors="replace") if isinstance(e.stdout, bytes) else (e.stdout or "")
-        subprocess.run(["pkill", "-f", "tlc2[.]TLC.*" + re.escape(mc_name)], check=False)
+        # only THIS run's TLC (its -metadir is unique to the work directory); a broader pattern would kill the TLC of a concurrent check
+        subprocess.run(["pkill", "-f", "tlc2[.]TLC.*" + re.escape(os.path.join(wd, "md"))], check=False)
     res.wall = time.time() - t0
     if res.dump and os.path.exists(res.dump + ".dump"):
         res.dump = res.dump + ".dump"
